@@ -2,7 +2,8 @@
    Model: Entity/EntityModel.v (factory = list of participants, each with its publisher / subscriber / topic /
    content-filtered-topic lists; fstep = the effect of one mail; a proxy object of the API only carries handles
    and, for topics, the name). *)
-From DustDDS Require Import Base.Machine Entity.EntityModel Entity.EntityLemmas Entity.C36Proofs.
+From DustDDS Require Import Base.Machine Entity.EntityModel Entity.EntityLemmas Entity.C36Proofs Entity.C35Proofs
+     Entity.NoReuseRun Entity.C36History.
 Open Scope Z_scope.
 
 (* --- "Deleting an entity that still contains entities ... fails with PreconditionNotMet and changes nothing" *)
@@ -38,6 +39,41 @@ Proof. exact failed_delete_changes_nothing. Qed.
 Theorem C36_operation_on_missing_entity_is_already_deleted :
   forall pr f o, target_missing f o = true -> fstep pr f o = (f, RErr E_DELETED).
 Proof. exact op_on_missing_entity. Qed.
+
+(* ... and for ALL histories: an entity handle that existed (after opsA) and is gone (after opsB) is never issued
+   again (after any opsC), as long as no counter overflowed (class of C35) ... *)
+Theorem C36_deleted_entity_never_returns :
+  forall pr opsA opsB opsC h,
+    let fA := fst (frun pr init_factory opsA) in
+    let fB := fst (frun pr fA opsB) in
+    let fC := fst (frun pr fB opsC) in
+    any_ovf fC = false ->
+    In h (all_handles fA) -> ~ In h (all_handles fB) -> ~ In h (all_handles fC).
+Proof. exact deleted_handle_never_returns. Qed.
+
+(* ... hence every operation that names the handle of a deleted participant, publisher, subscriber, writer or
+   reader (as the participant the mail is routed to, as the publisher/subscriber or as the writer/reader; a
+   delete_publisher/subscriber through its own participant) returns AlreadyDeleted for ever and changes nothing. *)
+Theorem C36_operations_on_deleted_entities_fail_for_ever :
+  forall pr opsA opsB opsC h o,
+    let fA := fst (frun pr init_factory opsA) in
+    let fB := fst (frun pr fA opsB) in
+    let fC := fst (frun pr fB opsC) in
+    any_ovf fC = false ->
+    In h (all_handles fA) -> ~ In h (all_handles fB) ->
+    names_handle o h = true ->
+    fstep pr fC o = (fC, RErr E_DELETED).
+Proof. exact operations_on_deleted_entities. Qed.
+
+(* Topics are addressed by NAME: the proxy of a deleted topic answers again once the name is reused
+   (known finding C36-topic-proxy-by-name); until then it is covered by the theorem on missing entities. *)
+Theorem C36_deleted_topic_proxy_answers_again_after_name_reuse :
+  let q5 := mkEQ 0 None (Some 0) 0 None 0 (Some 100000000) 0 (Some 5) None None None 0 None 0 0 0 (Some 0) 0 true None in
+  snd (frun Debug init_factory
+         [FCreatePart None; FCreateTopic (part_handle 0) 1 None; FDeleteTopic (part_handle 0) (part_handle 0) 1;
+          FGetTopicQos (part_handle 0) 1; FCreateTopic (part_handle 0) 1 (Some q5); FGetTopicQos (part_handle 0) 1]) =
+  [RHandle (part_handle 0); RHandle (mkH 0 0 0 0 10); RUnit; RErr E_DELETED; RHandle (mkH 0 0 1 0 10); REQ q5].
+Proof. exact deleted_topic_answers_again_after_name_reuse. Qed.
 
 (* --- deleting through the wrong parent fails and changes nothing *)
 Theorem C36_delete_through_wrong_participant_fails :
@@ -88,6 +124,9 @@ Print Assumptions C36_nonempty_publisher_subscriber_delete_fails_unchanged.
 Print Assumptions C36_topic_in_use_delete_fails_unchanged.
 Print Assumptions C36_failed_delete_changes_nothing.
 Print Assumptions C36_operation_on_missing_entity_is_already_deleted.
+Print Assumptions C36_deleted_entity_never_returns.
+Print Assumptions C36_operations_on_deleted_entities_fail_for_ever.
+Print Assumptions C36_deleted_topic_proxy_answers_again_after_name_reuse.
 Print Assumptions C36_delete_through_wrong_participant_fails.
 Print Assumptions C36_delete_endpoint_through_wrong_group_fails.
 Print Assumptions C36_delete_contained_leaves_empty_and_deletable.
